@@ -9,7 +9,7 @@
     unlocked_store_breaks_wf locked_store_is_setitem code_lock_is_reentrant
     deadlock_free_for_code each_load_correct wf_at_quiescence acquisitions_come_from_programs
     acquisitions_in_program_order lru_invariant_under_every_schedule
-    loader_invariant_under_every_schedule
+    loader_invariant_under_every_schedule returned_templates_are_current
 -/
 import Genshi.Lemmas.ConcLoad
 import Genshi.Lemmas.ConcSerial
@@ -137,9 +137,21 @@ theorem loader_invariant_under_every_schedule (c : CCfg) (ls0 : LState) (clock :
     InvL c.fs clock (exec c (G.init ls0 progs) sched).ls ∧
     ((exec c (G.init ls0 progs) sched).owner = none →
       Inv ⟨c.fs, clock, (exec c (G.init ls0 progs) sched).ls⟩) := by
-  have h := gcinv_exec (gcinv_init c clock ls0 (InvL.of_inv hi) progs) sched
+  have h := gcinv_exec (ginv_init ls0 hi.lock progs) (gcinv_init c clock ls0 (InvL.of_inv hi) progs) sched
   refine ⟨h.inv, fun hfree => h.inv.to_inv ?_⟩
   exact (ginv_exec (ginv_init ls0 hi.lock progs) sched).free hfree
+
+/-- Every call returns a correct template: with automatic reloading, under every schedule and
+    for nested loads too, every template returned by a completed top-level load has the current
+    content of the file it comes from (the files are fixed while the threads run), whether it was
+    parsed by that call or served from the cache filled by another thread. -/
+theorem returned_templates_are_current (c : CCfg) (har : c.cfg.autoReload = true) (ls0 : LState)
+    (clock : Nat) (hi : Inv ⟨c.fs, clock, ls0⟩) (progs : List (List CReq)) (sched : List Tid)
+    (tid : Tid) (r : Req) (t : Tmpl)
+    (h : (tid, r, Res.ok t) ∈ (exec c (G.init ls0 progs) sched).completed) :
+    ∃ f, c.fs t.loc = some f ∧ f.content = t.content :=
+  (gcinv_exec (ginv_init ls0 hi.lock progs) (gcinv_init c clock ls0 (InvL.of_inv hi) progs) sched).log
+    (tid, r, .ok t) h har
 
 /-- Under every schedule, in every reachable state (not only at quiescence, and also for programs
     with nested loads): the cache is one that a sequence of `__getitem__`/`__setitem__` calls builds
